@@ -204,6 +204,60 @@ pub mod w8 {
     pub struct Twin;
 }
 
+/// W9 - a reference looked up in the object table cannot outlive the context that owns the table.
+pub mod w9 {
+    /// ```compile_fail,E0597
+    /// use desert::{DeserializationContext, RefId};
+    /// let bytes = vec![0u8];
+    /// let r;
+    /// {
+    ///     let ctx = DeserializationContext::new(&bytes);
+    ///     r = ctx.state().get_ref_by_id(RefId(1));
+    /// }
+    /// let _ = r.is_some();
+    /// ```
+    pub struct Bad;
+
+    /// ```no_run
+    /// use desert::{DeserializationContext, RefId};
+    /// let bytes = vec![0u8];
+    /// let r;
+    /// let ctx = DeserializationContext::new(&bytes);
+    /// {
+    ///     r = ctx.state().get_ref_by_id(RefId(1));
+    /// }
+    /// let _ = r.is_some();
+    /// ```
+    pub struct Twin;
+}
+
+/// W10 - a string looked up in the string table cannot outlive the context that owns the table.
+pub mod w10 {
+    /// ```compile_fail,E0597
+    /// use desert::{DeserializationContext, StringId};
+    /// let bytes = vec![0u8];
+    /// let s;
+    /// {
+    ///     let ctx = DeserializationContext::new(&bytes);
+    ///     s = ctx.state().get_string_by_id(StringId(1));
+    /// }
+    /// let _ = s.is_some();
+    /// ```
+    pub struct Bad;
+
+    /// ```no_run
+    /// use desert::{DeserializationContext, StringId};
+    /// let bytes = vec![0u8];
+    /// let s;
+    /// let ctx = DeserializationContext::new(&bytes);
+    /// {
+    ///     s = ctx.state().get_string_by_id(StringId(1));
+    /// }
+    /// let _ = s.is_some();
+    /// ```
+    pub struct Twin;
+}
+
 /// S1..S3 - per-call state cannot cross threads; per-type metadata can be shared.
 pub mod auto {
     /// ```compile_fail,E0277
